@@ -318,7 +318,10 @@ theorem formatGeneralCore_unclamped (precision bits : Nat) (upper alt asf : Bool
         else
           maybeRemoveTrailingRedundantChars
             (toFixedL bits ((precision : Int) - 1 - (toExpL bits (precision - 1)).2).toNat) alt ++
-            decimalPointOrEmpty ((precision : Int) - 1 - (toExpL bits (precision - 1)).2).toNat alt
+            decimalPointOrEmpty ((precision : Int) - 1 - (toExpL bits (precision - 1)).2).toNat alt ++
+            (if asf ∧ !(maybeRemoveTrailingRedundantChars
+                (toFixedL bits ((precision : Int) - 1 - (toExpL bits (precision - 1)).2).toNat) alt).contains 46
+              then [46, 48] else [])
       else if isNan bits then formatNan upper
       else formatInf upper := by
   unfold formatGeneralCore
